@@ -21,7 +21,7 @@ LEVEL_TEXT = ("Seeded stateful exploration of API histories; the Director's own 
               "compared with after every operation.")
 LEVEL_NOTE = "Trusted: harness observers (a step is what reaches the 'recorded' instant); sampling evidence only."
 PROBES = ["op_sim", "op_resume", "op_initialize", "op_backward", "op_reverse_log", "op_sim_keep_log", "op_sim_keep_state",
-          "absence_step_logged", "time_limit_hit", "entries_compared"]
+          "absence_step_logged", "time_limit_hit", "entries_compared", "op_reload"]
 
 
 def budget(tier):
@@ -45,7 +45,10 @@ def gen(rng, tier):
         elif r < 0.5:
             ops.append({"op": "resume", "max_time": rng.choice([10, 25, 60])})
         elif r < 0.62:
-            ops.append({"op": "initialize", "state": rng.random() < 0.5, "log": rng.random() < 0.5})
+            if rng.random() < 0.3:
+                ops.append({"op": "reload"})  # the project is written to a file and read back into a new project: a resume may follow
+            else:
+                ops.append({"op": "initialize", "state": rng.random() < 0.5, "log": rng.random() < 0.5})
         elif r < 0.85:
             cfg = G.gen_cfg(rng, p, max_time=rng.choice([8, 15, 40]))
             if rng.random() < 0.3:
@@ -55,6 +58,15 @@ def gen(rng, tier):
         else:
             ops.append({"op": "reverse_log"})
     spec["ops"] = ops
+    if rng.random() < 0.1:
+        m = spec["model"]
+        n0 = len(m["tasks"])
+        i = G.append_task(m, {"id": "tsub", "work": rng.choice([1.0, 2.0, 3.0]), "rate": rng.choice([0.5, 1.0, 2.0]),
+                              "sub": {"file": None, "unit_s": 60}}, rng)
+        for a in range(n0):
+            if rng.random() < 0.3:
+                m["deps"].append([a, i, rng.choice(p["kinds"])])
+        spec["ranks"]["tsub"] = max(spec["ranks"].values()) + 1
     return spec
 
 
@@ -190,6 +202,13 @@ def run(spec):
             if cfg.get("init_log", True):
                 shadow = []
             rec, out = scen.simulate(p, cfg, snap_phases=("recorded",), backward={"due": op["due"], "reverse": op["reverse"]})
+        elif kind == "reload":
+            res.count("op_reload")
+            new, ow, orr = scen.save_load(p, "mem:c08.json", spec.get("ranks"))
+            out = ow if new is None and not ow.ok else (orr if new is None else ow)
+            if new is not None:
+                p = new
+                ix = D.index(p)
         elif kind == "reverse_log":
             res.count("op_reverse_log")
             out = D.call(lambda: p.reverse_log_information())
